@@ -926,6 +926,10 @@ def directed_cases():
         cs.append({"node": {"cls": cls, "outd": 2}, "ops": [{"op": "train", "x": arr([2, 3], "f", 32), "y": {"t": "teacher", "dim": 3}}, tr]})
         cs.append({"node": {"cls": cls}, "ops": [{"op": "train", "x": arr([2, 3], "f", 32), "y": {"t": "teacher", "dim": 2}}, tr]})
     cs.append({"node": {"cls": "Ridge"}, "ops": [{"op": "fit", "x": arr([4, 3], "f", 30), "y": {"t": "teacher", "dim": 2}}]})
+    # a Python number as the target of a fresh online readout: passes check_xy but gives no output dimension (hasattr(Y, "__iter__"))
+    cs.append({"node": {"cls": "LMS"}, "ops": [{"op": "train", "x": arr([1, 1], "f", 35), "y": {"t": "num", "v": "2"}},
+                                                {"op": "train", "x": arr([1, 1], "f", 36), "y": arr([1, 2], "f", 37)}]})
+    cs.append({"node": {"cls": "RLS", "outd": 1}, "ops": [{"op": "train", "x": arr([1, 2], "f", 35), "y": {"t": "num", "v": "2"}}]})
     cs.append({"node": {"cls": "Identity"}, "ops": [{"op": "call", "x": {"t": "teacher", "dim": 3}}]})
     # the two open findings: 3-D array to call / run of an initialised node; ragged feature counts on an uninitialised node
     cs.append({"node": {"cls": "Identity"}, "ops": [{"op": "run", "x": arr([2, 3], "f", 12)}, {"op": "call", "x": arr([2, 1, 3], "f", 13)}]})
